@@ -237,7 +237,7 @@ def gen_cnn(tier, rng):
     cases += c; ex &= e
     nw, ln = (4, 40) if quick else (12, 150)
     for w in range(nw):
-        hw = rng.choice([(32, 32), (48, 40), (64, 64)] if not quick else [(32, 32), (40, 36)])
+        hw = rng.choice([(32, 32), (48, 40), (64, 64), (28, 44), (20, 56)] if not quick else [(32, 32), (40, 36), (28, 44), (16, 40)][w % 4:][:1])
         static = {"input_shape": [3, *hw], "num_outputs": rng.choice([4, 16]), "layer_norm": rng.random() < 0.4, "init_layers": False}
         cfg = {"min_hidden_layers": 1, "max_hidden_layers": 6, "min_channel_size": 32, "max_channel_size": 256 if not quick else 96}
         init = rng.choice([{"channels": [32, 32], "kernels": [3, 3], "strides": [1, 1]},
@@ -404,3 +404,61 @@ def gen_sibling(tier, rng):
 
 
 GENERATORS.append(gen_sibling)
+
+
+# ------------------------------------------------------------------ round-3 audit: failed calls, non-square images, tuple arguments, same-clone chains
+BAD_CALLS = {
+    "mlp": [("add_node", {"numb_new_nodes": "16"}), ("remove_node", {"hidden_layer": "0", "numb_new_nodes": 4}), ("add_node", {"hidden_layer": 0, "numb_new_nodes": None, "bogus": 1})],
+    "lstm": [("add_node", {"numb_new_nodes": "16"}), ("remove_node", {"numb_new_nodes": "4"})],
+    "simba": [("add_node", {"numb_new_nodes": "16"}), ("remove_node", {"numb_new_nodes": "4"})],
+    "resnet": [("add_channel", {"numb_new_channels": "8"}), ("remove_channel", {"numb_new_channels": "4"})],
+    "cnn": [("change_kernel", {"kernel_size": 2.5, "hidden_layer": 1}), ("change_kernel", {"kernel_size": 2, "hidden_layer": 99}),
+            ("change_kernel", {"hidden_layer": 99}), ("add_channel", {"numb_new_channels": "8"}), ("remove_channel", {"hidden_layer": "0"})],
+}
+
+
+def gen_round3(tier, rng):
+    cases = []
+    quick = tier == "quick"
+    # (A) a call that raises (and is caught) followed by ordinary mutations ON THE SAME OBJECT, every block, every documented failure
+    protos = {
+        "mlp": dict(static=dict(MLP_STATIC), cfg={"min_hidden_layers": 1, "max_hidden_layers": 3, "min_mlp_nodes": 16, "max_mlp_nodes": 200}, init=[64, 64],
+                    good=[S("add_node", (1, 0)), S("add_layer", (0, 0)), S("remove_node", (0, 0)), S("remove_layer", (0, 1))]),
+        "cnn": dict(static={"input_shape": [2, 20, 28], "num_outputs": 3, "layer_norm": False, "init_layers": False},
+                    cfg={"min_hidden_layers": 1, "max_hidden_layers": 4, "min_channel_size": 8, "max_channel_size": 64},
+                    init={"channels": [16, 16], "kernels": [3, 3], "strides": [1, 1]},
+                    good=[S("add_channel", (1, 0)), S("change_kernel", (0, 1)), S("add_layer", (0, 0)), S("remove_channel", (0, 0)), S("remove_layer", (0, 0))]),
+    }
+    for name in ("lstm", "simba", "resnet"):
+        sp = SC[name]
+        protos[name] = dict(static=sp["static"], cfg=sp["cfg_drawn"], init=sp["init_drawn"],
+                            good=[S(sp["node"][0], (0,)), S(sp["layer"][0], (0,)), S(sp["node"][1], (0,)), S(sp["layer"][1], (1,))])
+    for name, pr in protos.items():
+        for (bm, bargs) in BAD_CALLS[name]:
+            for pos in ((0, 2) if quick else (0, 1, 2, 3)):
+                good = [dict(g) for g in pr["good"]]
+                steps = good[:pos] + [{"m": bm, "args": {}, "r": [0, 0], "bad": bargs}] + good[pos:]
+                cases.append({"block": name, "static": pr["static"], "cfg": pr["cfg"], "init": pr["init"], "steps": steps, "every": 1, "src": "failed-call"})
+    # networks / multi-input: one clone, then a failed call, a latent mutation and nested mutations on that same clone
+    netcfg = {"min_latent_dim": 8, "max_latent_dim": 128, "encoder_config": {"min_mlp_nodes": 16, "max_mlp_nodes": 200}, "head_config": {"min_mlp_nodes": 16, "max_mlp_nodes": 200}}
+    for n in (("q", "stoch") if quick else ("q", "stoch", "value", "det", "contq", "rainbow")):
+        for first in ("add_latent_node", "remove_latent_node"):
+            steps = [{"m": "add_latent_node", "args": {}, "r": [0, 0], "bad": {"numb_new_nodes": "8"}},
+                     {"m": "encoder.add_node", "args": {}, "r": [0, 0], "bad": {"numb_new_nodes": "16"}},
+                     S(first, (0, 0)), S("head_net.add_node", (0, 0)), S("encoder.add_node", (0, 1)), S("head_net.add_layer", (0, 0)),
+                     S("remove_latent_node" if first == "add_latent_node" else "add_latent_node", (0, 1)), S("encoder.remove_node", (0, 0)), S("head_net.remove_layer", (0, 0))]
+            cases.append({"block": "net", "net": n, "obs": "vector", "clone": "once", "static": {}, "cfg": netcfg,
+                          "init": {"latent": 32, "enc": {"layers": 1, "widths": [64]}, "head": [64]}, "steps": steps, "every": 1, "src": "same-clone"})
+    # (B) networks over a non-square image (H < W and H > W)
+    for img in ([2, 12, 20], [2, 20, 12]):
+        ec = {"min_channel_size": 8, "max_channel_size": 48, "init_layers": False}
+        meths = ["add_latent_node", "remove_latent_node"] + NET_ENC_METHODS["image"] + HEAD_METHODS
+        steps = [S(rng.choice(meths), (rng.randrange(1000), rng.randrange(1000))) for _ in range(10 if quick else 40)]
+        cases.append({"block": "net", "net": rng.choice(["q", "value"]), "obs": "image", "img": img, "clone": True, "static": {},
+                      "cfg": {"min_latent_dim": 8, "max_latent_dim": 128, "encoder_config": ec, "head_config": {}},
+                      "init": {"latent": 32, "enc": {"layers": 2, "widths": [8, 8], "kernels": [3, 3], "strides": [1, 1]}, "head": [32]},
+                      "steps": steps, "every": 3, "src": "walk", "twin": True})
+    return cases, True
+
+
+GENERATORS.append(gen_round3)
